@@ -269,7 +269,7 @@ func matchInto(pat, fact interface{}, bs map[string]interface{}) bool {
 				// A structured value bound earlier is re-used as a pattern by the
 				// implementation (partial matching); the reference only knows the
 				// clear cases: identical values match, anything else is left open.
-				if Canon(bound) == Canon(fact) {
+				if Canon(bound) == Canon(fact) && !hasDuplicateScalars(bound) {
 					return true
 				}
 				Uncertain = true
@@ -646,11 +646,23 @@ func matchAll(pat, fact interface{}, bs map[string]interface{}) []map[string]int
 			}
 			return nil
 		}
+		// the fact array is a set: equal scalar members count once
 		var out []map[string]interface{}
+		seen := map[string]bool{}
 		for i, fe := range f {
-			if used[i] {
+			if used[i] || seen[Canon(fe)] {
 				continue
 			}
+			dupOfUsed := false
+			for j, fj := range f {
+				if used[j] && Canon(fj) == Canon(fe) {
+					dupOfUsed = true
+				}
+			}
+			if dupOfUsed {
+				continue
+			}
+			seen[Canon(fe)] = true
 			c := copyMap(bs)
 			if matchInto(variable, fe, c) {
 				out = append(out, c)
@@ -663,4 +675,34 @@ func matchAll(pat, fact interface{}, bs map[string]interface{}) []map[string]int
 		}
 		return nil
 	}
+}
+
+// hasDuplicateScalars reports an array (at any depth) with two equal scalar
+// members: outside the documented fragment (arrays are sets).
+func hasDuplicateScalars(x interface{}) bool {
+	switch v := x.(type) {
+	case map[string]interface{}:
+		for _, e := range v {
+			if hasDuplicateScalars(e) {
+				return true
+			}
+		}
+	case []interface{}:
+		seen := map[string]bool{}
+		for _, e := range v {
+			switch e.(type) {
+			case map[string]interface{}, []interface{}:
+				if hasDuplicateScalars(e) {
+					return true
+				}
+			default:
+				k := Canon(e)
+				if seen[k] {
+					return true
+				}
+				seen[k] = true
+			}
+		}
+	}
+	return false
 }
